@@ -5,6 +5,7 @@
    ascending order); which of the four ASCII prefilters the Rust code picks is tied by the correspondence. *)
 From Coq Require Import NArith List Bool.
 From NV Require Import Model.Matcher Spec.Matching Spec.Statements Proofs.C05Facts.
+From NV Require Proofs.K1Facts.
 Import ListNotations.
 Local Open Scope N_scope.
 
@@ -40,3 +41,14 @@ Print Assumptions C05_exact_kinds.
 Print Assumptions C05_substring.
 Print Assumptions C05_best_pos.
 Print Assumptions C05_K1_refuted.
+
+(* Known finding K1 characterised exactly: inside the known class (byte haystack, code-point needle) EVERY algorithm
+   answers NoMatch for every non-empty needle, whatever the configuration and the content - the hypothesis
+   `~ known_K1` of the theorems above excludes one uniform behaviour, not an unexamined region (no panic, no wrong
+   match, no wrong score can hide there); the empty needle matches with score 0 in every representation. *)
+Theorem C05_K1_characterised : forall cfg a hs ns, known_K1 hs ns -> cs ns <> [] -> run cfg a hs ns = NoMatch.
+Proof. exact K1Facts.K1_all_nomatch. Qed.
+Theorem C05_empty_needle : forall cfg a hs ns, cs ns = [] -> run cfg a hs ns = Match 0 [].
+Proof. exact K1Facts.K1_empty_needle. Qed.
+Print Assumptions C05_K1_characterised.
+Print Assumptions C05_empty_needle.
